@@ -218,13 +218,17 @@ class Codec:
         else:
             msg_length += int(value)
 
-        # message looks incomplete
-        if msg_length > len(rawmsg) - valid_idx:
+        # message looks incomplete (a frame that has its CheckSum field is complete,
+        #   whatever its BodyLength claims)
+        if trailer_end == -1 and msg_length > len(rawmsg) - valid_idx:
             assert silent, "incomplete message"
             return (None, parsed_length, None)
 
         checksum_passed = False
-        parsed_length += msg_length
+        if trailer_end != -1:
+            parsed_length = frame_end
+        else:
+            parsed_length += msg_length
 
         decoded_msg = FIXMessage("UNKNOWN")
         repeating_groups = []
